@@ -505,6 +505,96 @@ Proof.
   f_equal; subst n; apply matches_reference; assumption.
 Qed.
 
+(** ---- building a tree while the environment changes the shared state between atoms ---- *)
+Lemma build_fresh_ext : forall cf s q st t st',
+  build true cf s q st = (t, st') -> fresh_ext (st_heap st) (st_heap st').
+Proof.
+  intros cf s q. induction q as [b|k|p|a IHa b IHb|a IHa b IHb|a IHa]; intros st t st' H; cbn in H.
+  - destruct b; injection H as <- <-; cbn; [apply fresh_ext_one | apply fresh_ext_refl].
+  - destruct (cache_get k (st_cache st)) as [[addr p]|]; injection H as <- <-; cbn; apply fresh_ext_one.
+  - injection H as <- <-. cbn. apply fresh_ext_one.
+  - destruct (build true cf s a st) as [ta st1] eqn:Ea. destruct (build true cf s b st1) as [tb st2] eqn:Eb.
+    injection H as <- <-. eapply fresh_ext_trans; eauto.
+  - destruct (build true cf s a st) as [ta st1] eqn:Ea. destruct (build true cf s b st1) as [tb st2] eqn:Eb.
+    injection H as <- <-. eapply fresh_ext_trans; eauto.
+  - destruct (build true cf s a st) as [ta st1] eqn:Ea. injection H as <- <-. eauto.
+Qed.
+
+Definition env_grows (env : nat -> state -> state) : Prop :=
+  forall i x, length (st_heap x) <= length (st_heap (env i x)).
+Definition env_keeps (env : nat -> state -> state) (a : nat) : Prop :=
+  forall i x, a < length (st_heap x) -> get_cursor (st_heap (env i x)) a = get_cursor (st_heap x) a.
+
+Lemma build_env_atom : forall env cf s q st k,
+  match q with QAnd _ _ | QOr _ _ | QNot _ => False | _ => True end ->
+  build_env env cf s q st k = (let '(t, st1) := build true cf s q (env k st) in (t, st1, S k)).
+Proof. intros env cf s q st k H. destruct q; try contradiction; reflexivity. Qed.
+
+Lemma build_env_keeps : forall env cf s q st k t st' k',
+  build_env env cf s q st k = (t, st', k') -> env_grows env ->
+  length (st_heap st) <= length (st_heap st') /\
+  forall a, a < length (st_heap st) -> env_keeps env a -> get_cursor (st_heap st') a = get_cursor (st_heap st) a.
+Proof.
+  intros env cf s q. induction q as [b|key|p|a IHa b IHb|a IHa b IHb|a IHa]; intros st k t st' k' H Hg;
+    try (rewrite build_env_atom in H by exact I;
+         destruct (build true cf s _ (env k st)) as [t0 st0] eqn:Eb; injection H as <- <- <-;
+         pose proof (build_fresh_ext _ _ _ _ _ _ Eb) as F; pose proof (fresh_ext_len _ _ F) as L;
+         pose proof (Hg k st) as G; split; [lia|];
+         intros a Ha Hk; rewrite (fresh_ext_get_old _ _ a F) by lia; now apply Hk).
+  - cbn [build_env] in H. destruct (build_env env cf s a st k) as [[ta st1] k1] eqn:Ea.
+    destruct (build_env env cf s b st1 k1) as [[tb st2] k2] eqn:Eb. injection H as <- <- <-.
+    destruct (IHa _ _ _ _ _ Ea Hg) as [La Ka]. destruct (IHb _ _ _ _ _ Eb Hg) as [Lb Kb].
+    split; [lia|]. intros x Hx Hk. rewrite Kb, Ka; auto. lia.
+  - cbn [build_env] in H. destruct (build_env env cf s a st k) as [[ta st1] k1] eqn:Ea.
+    destruct (build_env env cf s b st1 k1) as [[tb st2] k2] eqn:Eb. injection H as <- <- <-.
+    destruct (IHa _ _ _ _ _ Ea Hg) as [La Ka]. destruct (IHb _ _ _ _ _ Eb Hg) as [Lb Kb].
+    split; [lia|]. intros x Hx Hk. rewrite Kb, Ka; auto. lia.
+  - cbn [build_env] in H. destruct (build_env env cf s a st k) as [[ta st1] k1] eqn:Ea. injection H as <- <- <-.
+    eauto.
+Qed.
+
+Lemma build_env_spec : forall env cf s q st k t st' k',
+  build_env env cf s q st k = (t, st', k') ->
+  env_grows env ->
+  (forall i x, cache_ok s (st_cache x) -> cache_ok s (st_cache (env i x))) ->
+  (forall a, In a (leaves t) -> env_keeps env a) ->
+  cache_ok s (st_cache st) ->
+  (forall a, In a (leaves t) -> length (st_heap st) <= a < length (st_heap st') /\ get_cursor (st_heap st') a = (false, 0)) /\
+  (forall d, matches t d = qeval s q d) /\ cache_ok s (st_cache st').
+Proof.
+  intros env cf s q. induction q as [b|key|p|a IHa b IHb|a IHa b IHb|a IHa]; intros st k t st' k' H Hg Hc Hk Hok;
+    try (rewrite build_env_atom in H by exact I;
+         destruct (build true cf s _ (env k st)) as [t0 st0] eqn:Eb; injection H as <- <- <-;
+         destruct (build_spec _ _ _ _ _ _ Eb (Hc k st Hok)) as (B1 & B2 & B3 & B4);
+         pose proof (Hg k st) as G; split; [|split; assumption];
+         intros a Ha; specialize (B2 a Ha); split; [lia | eapply fresh_ext_get; eauto]).
+  - cbn [build_env] in H. destruct (build_env env cf s a st k) as [[ta st1] k1] eqn:Ea.
+    destruct (build_env env cf s b st1 k1) as [[tb st2] k2] eqn:Eb. injection H as <- <- <-.
+    assert (Hka : forall x, In x (leaves ta) -> env_keeps env x) by (intros; apply Hk; cbn; apply in_or_app; now left).
+    assert (Hkb : forall x, In x (leaves tb) -> env_keeps env x) by (intros; apply Hk; cbn; apply in_or_app; now right).
+    destruct (IHa _ _ _ _ _ Ea Hg Hc Hka Hok) as (A1 & A2 & A3).
+    destruct (IHb _ _ _ _ _ Eb Hg Hc Hkb A3) as (B1 & B2 & B3).
+    destruct (build_env_keeps _ _ _ _ _ _ _ _ _ Ea Hg) as [La _]. destruct (build_env_keeps _ _ _ _ _ _ _ _ _ Eb Hg) as [Lb Kb].
+    split; [|split; [intros d; cbn; now rewrite A2, B2 | exact B3]].
+    intros x Hx. cbn in Hx. apply in_app_or in Hx. destruct Hx as [Hx|Hx].
+    + destruct (A1 x Hx) as [R1 R2]. split; [lia|]. rewrite Kb; [exact R2 | lia | now apply Hka].
+    + destruct (B1 x Hx) as [R1 R2]. split; [lia | exact R2].
+  - cbn [build_env] in H. destruct (build_env env cf s a st k) as [[ta st1] k1] eqn:Ea.
+    destruct (build_env env cf s b st1 k1) as [[tb st2] k2] eqn:Eb. injection H as <- <- <-.
+    assert (Hka : forall x, In x (leaves ta) -> env_keeps env x) by (intros; apply Hk; cbn; apply in_or_app; now left).
+    assert (Hkb : forall x, In x (leaves tb) -> env_keeps env x) by (intros; apply Hk; cbn; apply in_or_app; now right).
+    destruct (IHa _ _ _ _ _ Ea Hg Hc Hka Hok) as (A1 & A2 & A3).
+    destruct (IHb _ _ _ _ _ Eb Hg Hc Hkb A3) as (B1 & B2 & B3).
+    destruct (build_env_keeps _ _ _ _ _ _ _ _ _ Ea Hg) as [La _]. destruct (build_env_keeps _ _ _ _ _ _ _ _ _ Eb Hg) as [Lb Kb].
+    split; [|split; [intros d; cbn; now rewrite A2, B2 | exact B3]].
+    intros x Hx. cbn in Hx. apply in_app_or in Hx. destruct Hx as [Hx|Hx].
+    + destruct (A1 x Hx) as [R1 R2]. split; [lia|]. rewrite Kb; [exact R2 | lia | now apply Hka].
+    + destruct (B1 x Hx) as [R1 R2]. split; [lia | exact R2].
+  - cbn [build_env] in H. destruct (build_env env cf s a st k) as [[ta st1] k1] eqn:Ea. injection H as <- <- <-.
+    destruct (IHa _ _ _ _ _ Ea Hg Hc Hk Hok) as (A1 & A2 & A3).
+    split; [exact A1|]. split; [intros d; cbn; now rewrite A2 | exact A3].
+Qed.
+
 (** ---- the code before the repair depends on the history ---- *)
 Definition wit_shard : shard := {| ndocs := 4; meta := fun k d => N.eqb k 1 && Nat.ltb d 3 |}.
 Definition wit_cf : config := {| max_entries := 10; choose := fun _ _ => 0 |}.
